@@ -2,7 +2,7 @@
    model side of the correspondence lives here (in Gallina); the OCaml driver is generic. *)
 From Coq Require Import Strings.String.
 From ZipV Require Import Base.Bytes Base.Outcome Gen.GenLib Gen.TypesGen Model.Dos Extract.Obs.
-From ZipV Require Import Spec.PathSpec Model.Path Spec.Utf8 Model.Cp437 Gen.CompressionGen Model.Readers Model.Reader Spec.Crc32Spec.
+From ZipV Require Import Spec.PathSpec Model.Path Spec.Utf8 Model.Cp437 Gen.CompressionGen Model.Readers Model.Reader Spec.Crc32Spec Model.Stream.
 Open Scope string_scope.
 Open Scope N_scope.
 
@@ -185,6 +185,42 @@ Definition entry_sched_obs (data : bytes) (i : N) (pw : option bytes) (plan bufs
       end
   end.
 
+(* ---------- streaming reader ops (C10) *)
+Definition smeta_obs (f : zfd) : obs :=
+  OL [OB (f_name f); OB (f_name_raw f); ON (CompressionMethod_to_u16 (f_method f)); ON (f_csize f); ON (f_usize f);
+      ON (f_crc f); time_obs (f_time f); oopt ON (unix_mode f); OB (f_comment f)].
+
+Definition sentry_reader (data : bytes) (e : sentry) : stored_st :=
+  make_stored (se_file e) (CPlain {| t_inner := {| s_data := drop (se_data_start e) data; s_plan := [] |};
+                                     t_limit := f_csize (se_file e) |}).
+
+(* read k bytes (255 = everything, with the checksum verdict) from a streamed entry *)
+Definition sentry_consume (data : bytes) (e : sentry) (k : N) : obs :=
+  if negb (CompressionMethod_eqb (f_method (se_file e)) CompressionMethod_Stored) then T "SKIP" else
+  if k =? 255 then read_loop (zipfile_read dummy_blk dummy_mac crc32) (Datatypes.S (length data)) (sentry_reader data e) 4096 []
+  else match read_exact (zipfile_read dummy_blk dummy_mac crc32) (sentry_reader data e) (N.min k (f_csize (se_file e))) with
+       | Ok (bs, _) => OL [T "Part"; OB bs]
+       | Err er => OL [T "Err"; err_obs er]
+       | Panic p => OL [T "PANIC"; site_obs p]
+       end.
+
+Fixpoint nth_cyc (l : list N) (i : nat) (d : N) : N :=
+  match l with [] => d | _ => nth (Nat.modulo i (length l)) l d end.
+
+Definition stream_consume_obs (data : bytes) (pattern : list N) : obs :=
+  let '(es, r) := stream_entries (Datatypes.S (length data)) data 0 in
+  let items := (fix go (l : list sentry) (i : nat) : list obs :=
+                  match l with
+                  | [] => []
+                  | e :: r => OL [smeta_obs (se_file e); sentry_consume data e (nth_cyc pattern i 255)] :: go r (Datatypes.S i)
+                  end) es 0%nat in
+  OL (items ++ [match r with Ok _ => T "END" | Err er => OL [T "Err"; err_obs er] | Panic p => OL [T "PANIC"; site_obs p] end]).
+
+Definition visit_obs (data : bytes) : obs :=
+  let '(files, metas, r) := visit data in
+  OL [OL (map (fun e => OB (f_name (se_file e))) files);
+      OL (map (fun f => OL [OB (f_name f); oopt ON (unix_mode f); OB (f_comment f)]) metas); res_obs (fun _ => T "unit") r].
+
 Fixpoint insert_sorted (x : bytes) (l : list bytes) : list bytes :=
   match l with
   | [] => [x]
@@ -206,6 +242,14 @@ Definition dispatch_reader (op : bytes) (args : list arg) : option obs :=
     | [AB data; AN i; AN haspw; AB pw; AB plan; AB bufs; AN mode] =>
         if N.eqb mode 0%N then Some (entry_sched_obs data i (if N.eqb haspw 0%N then None else Some pw) plan bufs)
         else Some (T "IMPL-ONLY")
+    | _ => None end
+  else if is_op op "stream_consume" then
+    match args with
+    | [AB data; AB pattern] => Some (stream_consume_obs data (map b2n pattern))
+    | _ => None end
+  else if is_op op "visit" then
+    match args with
+    | [AB data] => Some (visit_obs data)
     | _ => None end
   else if is_op op "byname" then
     match args with
